@@ -61,3 +61,15 @@ func verifRoundTripAuthResponseMsg(w io.Writer, r io.Reader, x *AuthResponseMsg)
 	decErr = y.Decode(r)
 	return y, nil, decErr
 }
+
+// The message type byte: what DecodeMsg dispatches on is the type the encoder wrote. (The decoder registered under that type
+// is a function value from the registry and is not followed.)
+func verifRoundTripMsgType(w0 io.Writer, r0 io.Reader, x Msg) (y Msg, encErr, decErr error) {
+	encErr = EncodeMsg(x, w0)
+	if encErr != nil {
+		return nil, encErr, nil
+	}
+	verifLink(w0, r0)
+	y, decErr = DecodeMsg(r0)
+	return y, nil, decErr
+}
